@@ -222,6 +222,9 @@ class FnEmitter:
                     )
                 else:
                     args.append("P" + "".join(str(i) for i in v.concrete))
+            elif kind == "oracle":
+                # (added by group diag, additive) a function parameter of the caller passed on by name
+                args.append(v)
         self.ctr += 1
         base = f"c{self.ctr}"
         self.callnames[call.id] = base
@@ -292,8 +295,19 @@ class FnEmitter:
             elif kind == "perm4":
                 params.append(f"({name} : perm4)")
                 self.permname = name
+            elif kind == "fun":
+                # (added by group `velocity`, additive) an ORACLE callable handed to the function
+                # (user callables of pydrex.pathlines, the eigenvalue oracle): `info` is its
+                # Gallina type; its applications are ordinary `call` events whose callee name is
+                # the parameter name.  Created only by translator/specs_velocity.py.
+                params.append(f"({name} : {info})")
             elif kind == "static":
                 doc.append(f"{name} = {_show_static(d['statics'][name])} (specialised)")
+            elif kind == "oracle":
+                # (added by group diag, additive) an external routine (LAPACK) that stays a function
+                # parameter of the generated definition; info = its Gallina type.  Calls of it are
+                # ordinary call events whose cname is the parameter name (specs_diag.py).
+                params.append(f"({name} : {info})")
         rty = self.type_of(d["ret"])
         if d["fallible"]:
             rty = f"res ({rty})"
